@@ -28,6 +28,12 @@ struct C02 : DaemonScenario {
     return false;
   }
   bool crash_points_enabled(World &, Proc &) override { return true; }
+  void alternatives(World &w, Proc &p, const Req &r, std::vector<Alt> &a) override {
+    DaemonScenario::alternatives(w, p, r, a);
+    if (fam == "second") { std::vector<Alt> keep; for (auto &x : a) if (x.kind != BK_FAULT) keep.push_back(x); a = keep; }   // this family fails only the second instance's lock attempt
+    // the second instance's attempt to take the lock fails with an error other than "somebody holds it": it still must not go on
+    if (p.vpid == second_pid && second_pid && r.op == VK_FLOCK && w.ex->bound[BK_FAULT] > 0) { a.push_back({BK_FAULT, ALT_FAIL, ENOLCK}); a.push_back({BK_FAULT, ALT_FAIL, EIO}); }
+  }
   bool extra_events(World &w) override {
     if (fam == "second" && !second_started && restarts >= 1) {
       // a second qmail-send is started against the same queue: it must refuse and touch nothing
